@@ -250,8 +250,8 @@ theorem native_bits_roundtrip (c : CodecImpl) (conv : List Int → List Int) (p 
      encodeFrame c p x = .ok bytes → decodeFrame c conv p x.rows x.cols x.spp bytes = .ok x.data -/
 /-- **Native frames of >= 8 bits** (`native_roundtrip`): for every accepted shape (2-D or 3-D, 1..65535 rows and
 columns -- anything else is refused, `refuses_other_ranks`, `refuses_shape_out_of_range`; the decoder model refuses
-such shapes as pydicom does), every dtype of the model that is accepted (bool, uint8/16/32, int8/16/32 with matching
-bits allocated and pixel representation; 64-bit cells are outside the model), every bits stored and **every content** --
+such shapes as pydicom does), every dtype of the model that is accepted (bool, uint8/16/32/64, int8/16/32/64 with matching
+bits allocated and pixel representation), every bits stored and **every content** --
 whatever is accepted has all samples within the stored bits, and `decode_frame (encode_frame x) = x` as a list of
 values in C order (the returned array has pydicom's dtype for the bits allocated, bool comes back as 0 / 1 in uint8,
 and the shape `(rows, columns[, samples])` handed to `decode_frame`; frame index 0), and pydicom's decode of the bytes
